@@ -8,8 +8,9 @@ None == 1000
 Valid     == {1, 2, 3, 4}
 Coercible == {11, 12, 13}
 Invalid   == {99}
-VModes    == {"id", "coerce"}
-Accepts(vm, x) == vm = "id" \/ x \in Valid \cup Coercible
+VModes    == {"id", "coerce", "strict"}
+\* "id": no validation; "coerce": casts Coercible items; "strict": only Valid items
+Accepts(vm, x) == vm = "id" \/ x \in Valid \/ (vm = "coerce" /\ x \in Coercible)
 V(vm, x)       == IF vm = "coerce" /\ x \in Coercible THEN x - 10 ELSE x
 AllOK(vm, A)   == \A x \in A : Accepts(vm, x)
 VSet(vm, A)    == {V(vm, x) : x \in A}
@@ -40,7 +41,10 @@ OpSymDiff_KF15(s, vm, A) == LET rem == s \cap A IN Ok((s \ rem) \cup (VSet(vm, A
 
 \* op on a copy: copy/deepcopy/pickle yields an equal set that still validates: adding x to the
 \* copy behaves like adding x to the original would
+\* a[1] for the in-place operators: 0 set, 1 frozenset, 2 a list (not a set: Python raises TypeError)
+InplaceOps == {"ior", "iand", "isub", "ixor"}
 Apply(op, s, vm, a, As, got) ==
+  IF op \in InplaceOps /\ a[1] = 2 THEN Fail(s, {"TypeError"}) ELSE
   CASE op = "add"       -> OpAdd(s, vm, a[1])
     [] op = "discard"   -> OpDiscard(s, a[1])
     [] op = "remove"    -> OpRemove(s, a[1])
